@@ -11,10 +11,13 @@ import sys
 
 want = set(sys.argv[1:])
 rows = []
-for d in sorted(glob.glob("/tmp/seed_C*/?")):
-    pid = os.path.basename(os.path.dirname(d)).replace("seed_", "")
+for d in sorted(glob.glob("/tmp/seed_C*/?")) + sorted(glob.glob("/tmp/seed2_C*/?")):
+    second = "/seed2_" in d
+    pid = os.path.basename(os.path.dirname(d)).replace("seed2_", "").replace("seed_", "")
     v = os.path.basename(d)
-    if want and pid not in want:
+    if second:
+        v = {"a": "c", "b": "d"}[v]  # second-wave seeds are filed as <ID>_c / <ID>_d
+    if want and pid not in want and (pid + "_" + v) not in want:
         continue
     log = os.path.join(d, "verify.log")
     if not os.path.exists(log):
